@@ -23,7 +23,8 @@ import (
 var errDead = errors.New("simldb: node crashed")
 
 type mfile struct {
-	data []byte
+	data   []byte
+	synced int // length at the last Sync (power-loss probe only)
 }
 
 // store is the durable content of one database directory.
@@ -39,7 +40,64 @@ var (
 	regMu   sync.Mutex
 	stores  = map[string]*store{}
 	handles = map[*handle]struct{}{}
+	opened  []openDB
 )
+
+type openDB struct {
+	db   *leveldb.DB
+	node int
+}
+
+// CloseNode closes every database that tasks of node opened and that is still
+// registered (crash clean-up: frees goleveldb's goroutines even when the crash hit
+// before the opener could hand the handle to anybody). The handles are dead by then,
+// so closing adds no bytes. Returns the number of databases closed.
+func CloseNode(node int) int {
+	regMu.Lock()
+	var mine []*leveldb.DB
+	rest := opened[:0]
+	for _, o := range opened {
+		if o.node == node {
+			mine = append(mine, o.db)
+		} else {
+			rest = append(rest, o)
+		}
+	}
+	opened = rest
+	regMu.Unlock()
+	for _, db := range mine {
+		db.Close()
+	}
+	return len(mine)
+}
+
+func register(db *leveldb.DB, node int) {
+	regMu.Lock()
+	opened = append(opened, openDB{db, node})
+	regMu.Unlock()
+}
+
+// DropUnsynced truncates every file of the database to its last synced length
+// (power-loss probe; goleveldb syncs tables and manifests but the journal only when the
+// caller asks for it). Returns the number of bytes dropped.
+func DropUnsynced(path string) int {
+	regMu.Lock()
+	st := stores[path]
+	regMu.Unlock()
+	if st == nil {
+		return 0
+	}
+	st.mu.Lock()
+	defer st.mu.Unlock()
+	n := 0
+	for _, f := range st.files {
+		if f.synced < len(f.data) {
+			n += len(f.data) - f.synced
+			f.data = f.data[:f.synced]
+		}
+	}
+	return n
+}
 
 func init() {
 	simrt.RegisterKillHook(func(node int) {
@@ -58,6 +116,7 @@ func Reset() {
 	regMu.Lock()
 	stores = map[string]*store{}
 	handles = map[*handle]struct{}{}
+	opened = nil
 	regMu.Unlock()
 }
 
@@ -89,7 +148,7 @@ func Restore(path string, snap map[uint64][]byte) {
 			st.hasMeta = true
 			continue
 		}
-		st.files[k] = &mfile{data: append([]byte(nil), b...)}
+		st.files[k] = &mfile{data: append([]byte(nil), b...), synced: len(b)}
 	}
 	regMu.Lock()
 	stores[path] = st
@@ -242,7 +301,12 @@ func (w *writer) Write(p []byte) (int, error) {
 	w.h.after(code)
 	return len(p), nil
 }
-func (w *writer) Sync() error  { return nil }
+func (w *writer) Sync() error {
+	w.h.st.mu.Lock()
+	w.m.synced = len(w.m.data)
+	w.h.st.mu.Unlock()
+	return nil
+}
 func (w *writer) Close() error { return nil }
 
 var _ io.Writer = (*writer)(nil)
@@ -338,6 +402,7 @@ func OpenFile(path string, o *opt.Options) (*leveldb.DB, error) {
 		h.Close()
 		return nil, err
 	}
+	register(db, h.node)
 	return db, nil
 }
 
@@ -349,5 +414,6 @@ func RecoverFile(path string, o *opt.Options) (*leveldb.DB, error) {
 		h.Close()
 		return nil, err
 	}
+	register(db, h.node)
 	return db, nil
 }
